@@ -33,7 +33,15 @@ type partResult struct {
 	err   error
 }
 
-const verifDir = "/verif"
+// verifDir is where MANIFEST.json, known_findings.json, evidence/ and replays/
+// live. run.sh sets VERIF_DIR to its own directory (always /verif for the
+// registered commands; a snapshot directory for background runs).
+var verifDir = func() string {
+	if d := os.Getenv("VERIF_DIR"); d != "" {
+		return d
+	}
+	return "/verif"
+}()
 
 func nWorkers() int {
 	n := int(envInt("VERIF_WORKERS", 16))
